@@ -361,6 +361,19 @@ func passwords(tp *tape.Tape) (server, client string) {
 		client = server + ws[tp.Choose(len(ws))]
 		return
 	}
+	if tp.Bool(1, 10) {
+		// one password is a prefix of the other and the lengths differ by a "round"
+		// amount (a length folded into a byte or a 16-bit word must not make them equal)
+		pPwLongPrefix.Hit()
+		extra := []int{255, 256, 257, 512, 1024, 65536 % 4000, 3840}[tp.Choose(7)]
+		long := server + string(tp.Bytes(extra))
+		if tp.Bool(1, 2) {
+			client = long
+		} else {
+			client, server = server, long
+		}
+		return
+	}
 	switch tp.Pick(4, 1, 1, 1, 1, 1, 1, 1, 1) {
 	case 7:
 		// two characters swapped (same multiset of bytes)
@@ -818,3 +831,5 @@ var pForeignMinusOne = simrt.NewProbe("foreign.client.request.id.-1")
 
 var pWrongTypeRefused = simrt.NewProbe("byzantine.response.type!=0.refused.by.Resp(recorded,not.asserted)")
 var pWrongTypeAccepted = simrt.NewProbe("byzantine.response.type!=0.accepted.by.Resp(recorded,not.asserted)")
+
+var pPwLongPrefix = simrt.NewProbe("login.password.prefix.pairs.with.length.difference.255..3840")
